@@ -152,7 +152,10 @@ def expand(spec):
             # without max_resource_attr a worker that runs ahead of the poll and checkpoints there resumes
             # beyond the rung level it was paused at ("training script must not skip rung levels"):
             # outside C02; such workers report one level per poll
-            p["plan"]["burst"] = 1
+            if p["checkpointing"] or rng.random() < 0.5:
+                p["plan"]["burst"] = 1
+            # else: a script that does not resume from a checkpoint restarts at level 1 and cannot skip a rung level,
+            # so it may run ahead of the poll: several reports per poll, a PAUSE decision in the middle of a batch
         if rng.random() < 0.25:
             p["sjwd"] = False  # Tuner asks the backend for the busy workers; jobs make progress between poll and query
         if rng.random() < 0.3:
